@@ -93,18 +93,31 @@ def _forked(fn, timeout=300.0):
 
 
 # ---------------------------------------------------------------------------------------------------------
+_GENERIC_DIMS = {"ck", "inter", "vi", "opset", "symstyle", "dims"}
+
+
 def _instances(rule_desc, tier):
-    """-> [(params, model bytes)] for every bound-0 grid point of the rule's C05 space that can be built."""
+    """-> [(params, model bytes)] for every grid point of the rule's C05 space with at most one rule-specific deviation."""
     from vf import explore
     from vf.props import c05
     from vf.props import c05_spaces as spaces
     st = explore.Stats()
     out = []
-    for _, it in explore.explore(c05._driver_for(tier, [rule_desc]), bound=0, stats=st):
+    sp0 = spaces.lookup(rule_desc)
+    dims0 = sp0.dims(tier, rule_desc) if sp0 is not None else []
+    default = {d.name: d.values(tier)[0] for d in dims0}
+    cost = {d.name: d.cost for d in dims0}
+    for _, it in explore.explore(c05._driver_for(tier, [rule_desc]), bound=1, stats=st):
         if it["space"] is None:
             continue
         sp = spaces.SPACES[it["space"]]
         p = it["p"]
+        # the rule's whole exhaustive grid, plus ONE deviation in a rule-specific dimension (epsilon value, attribute
+        # present/absent, operand order ...); deviations of the generic host dimensions (how a constant is given, extra
+        # consumers, value_info, opset, symbolic-dim style) do not reach the rule object's own state
+        dev = [k for k, v in p.items() if cost.get(k, 0) and v != default.get(k)]
+        if any(k in _GENERIC_DIMS for k in dev):
+            continue
         try:
             mb = sp.build(dict(p), {"id": it["rule"], "path": it["path"], "sig": it.get("sig", "")})
             model = mb.build(value_info=p.get("vi", "yes") != "no")
@@ -246,7 +259,9 @@ def _chain_job(rule_desc, tier):
     if n == 0:
         return res
     indig = _forked(lambda: {"b": [_baseline(b) for _, b in inst]}).get("b") or [None] * n
-    gold = _run_chains(res, [p for p, _ in inst], lambda k: _apply(rule, inst[k][1]))
+    # quick: at most 4 rotations of the dimension list (8 chains); thorough: every rotation
+    gold = _run_chains(res, [p for p, _ in inst], lambda k: _apply(rule, inst[k][1]),
+                       max_rot=4 if tier == "quick" else None)
     res["golden_changed"] = sum(1 for g, i in zip(gold, indig) if g is not None and not g.startswith("raise:") and g != i)
     return res
 
